@@ -10,7 +10,8 @@ Tie:   correspondence — the real FlatSchema / ChainedSchema (real schema objec
        are compared.  Monitors (harness/impl/c04_impl.py) evaluate the property directly on the
        real schema values: indexes recomputed from scratch, public lookups vs object data,
        dropped objects unreachable, rejected op => identical schema, earlier values frozen.
-Layer 2 of DESIGN (DDL histories through the real delta commands) is NOT covered here.
+Layer 2: DDL histories through the real delta commands (substrate) - monitors only; the guarded
+command layer of the Coq model (C04_cmd_*) is not tied to edb/schema/delta.py.
 """
 from __future__ import annotations
 
@@ -27,6 +28,7 @@ THEOREMS = [
     'C04_index_inv', 'C04_index_inv_reachable', 'C04_name_index_complete',
     'C04_lookup_unique_global', 'C04_lookup_unique_name', 'C04_deleted_unreachable',
     'C04_rejected_noop', 'C04_persistent', 'C04_chained_inv', 'C04_chained_base_frozen',
+    'C04_cmd_index_inv', 'C04_cmd_refint', 'C04_cmd_refint_reachable',
 ]
 REFUTED = ['C04_index_inv_without_wf_op_refuted', 'C04_raw_api_refint_refuted']
 IMPL = os.path.join(lib.VERIF, 'harness', 'impl', 'c04_impl.py')
@@ -892,7 +894,7 @@ DDL_CORPUS = [
 def gen_ddl(tier):
     rnd = lib.rng('C04ddl')
     hs = [list(h) for h in DDL_CORPUS]
-    n = 480 if tier == 'quick' else 8000
+    n = 320 if tier == 'quick' else 6000
     hs += [ddl_history(rnd, 15) for _ in range(n)]
     return hs
 
@@ -929,6 +931,42 @@ def ddl_nontrivial(h, res):
     acc = [c for c, s_ in zip(h, st) if s_ == 'ok']
     return (len(acc) >= 4 and len(acc) < len(st)
             and any(c.startswith('DROP') or 'RENAME' in c or 'DROP ' in c for c in acc))
+
+
+def ddl_stats(hs, res):
+    if not res:
+        return {'histories': 0, 'note': 'layer 2 did not run'}
+    st, kinds = {}, {}
+    acc = rej = 0
+    for h, r in zip(hs, res):
+        ss = r.split(' !')[0].split('#')[0].split('|')
+        for c, x in zip(h, ss):
+            st[x] = st.get(x, 0) + 1
+            k = ' '.join(c.split()[:2])
+            a_, b_ = kinds.get(k, (0, 0))
+            kinds[k] = (a_ + (x == 'ok'), b_ + (x != 'ok'))
+            acc += x == 'ok'
+            rej += x != 'ok'
+    sizes = [int(r.split(' !')[0].split('#')[1]) for r in res if '#' in r]
+    return {
+        'what': 'DDL histories (<= 16 statements: create/alter/rename/drop of types, properties, links, link '
+                'properties, indexes, constraints, scalars, annotations, functions, aliases, globals, access '
+                'policies, modules; 5-25% deliberately invalid; nested ALTER blocks that fail part-way) applied '
+                'statement by statement through the REAL delta commands (edb.schema.ddl via the substrate, on '
+                'a ChainedSchema over the real std schema); MONITORS ONLY (no model correspondence): indexes of '
+                'the user/global FlatSchemas recomputed from scratch, every reference field of every user '
+                'object resolves, get_by_id/get/get_name/get_referrers agree with object data, dropped objects '
+                'unreachable, rejected statement => identical schema, earlier schema values frozen (pickled maps)',
+        'histories': len(hs), 'statements': acc + rej, 'accepted': acc, 'rejected': rej,
+        'distinct_nontrivial': len({tuple(h) for h, r in zip(hs, res) if ddl_nontrivial(h, r)}),
+        'nontrivial_rule': '>= 4 accepted statements, >= 1 rejected, an accepted DROP or RENAME',
+        'status_kinds': st,
+        'statement_kinds_accepted_rejected': {k: list(v) for k, v in sorted(kinds.items())},
+        'final_user_objects_avg': round(sum(sizes) / max(1, len(sizes)), 1),
+        'final_user_objects_max': max(sizes) if sizes else 0,
+        'monitor_failures': len([r for r in res if ' !' in r]),
+        'sample': hs[len(hs) // 2],
+    }
 
 
 def shrink_ddl(h, tag):
@@ -1123,6 +1161,15 @@ def run(tier):
             if ','.join(re.findall(r'\d+', o.replace('%N', ''))) != rw:
                 coq_diff.append(i)
 
+    # ---- Layer 2: DDL histories through the real delta commands (monitors only)
+    ddl_hist, ddl_res, ddl_err = gen_ddl(tier), [], None
+    try:
+        run_ddl_impl(ddl_hist[:1], nproc=1)            # warms the std-schema cache of the substrate
+        ddl_res = run_ddl_impl(ddl_hist)
+    except Exception as e:  # noqa
+        ddl_err = str(e)[-1500:]
+    ddl_fail = [i for i, r in enumerate(ddl_res) if ' !' in r]
+
     # ---- verdict
     known = lib.known_findings(PROP)
     reported = 0
@@ -1149,6 +1196,29 @@ def run(tier):
                               '(ops: A=add_raw/add U=update_obj S=set_obj_field X=unset_obj_field '
                               'D=delete K=discard L=delist; see harness/props/c04.py)'})
         reported += 1
+    seen_tags = set()
+    nrep = 0
+    for i in sorted(ddl_fail, key=lambda i: len(ddl_hist[i])):
+        tags = mon_tags(ddl_res[i])
+        kf = next((k for k in known if k.get('site') in tags), None)
+        if kf:
+            rep.known_finding(kf['id'], kf.get('what', ''))
+            continue
+        if tags[0] in seen_tags or nrep >= 2:
+            continue
+        seen_tags.add(tags[0])
+        nrep += 1
+        small = shrink_ddl(ddl_hist[i], tags[0])
+        rep.violation(f'monitor {tags} failed on a DDL history applied by the real delta commands',
+                      {'ddl_history': small, 'original_history': ddl_hist[i],
+                       'impl_result': run_ddl_impl([small])[0],
+                       'how': f'PYTHONPATH={lib.REPO}:/verif/harness /venv/bin/python harness/impl/c04_impl.py '
+                              f'{lib.REPO} ddl <<< \'<json list of statements>\'  (result: status of every '
+                              'statement | ... #objects in the user schema, then the monitors that failed@statement)'})
+    if ddl_err is not None:
+        rep.violation('Layer 2 driver could not run DDL through the real delta commands (substrate / std-schema '
+                      'bootstrap failed): ' + ddl_err[-400:],
+                      {'broken': 'layer 2 driver', 'stderr_tail': ddl_err}, False)
     if harness_err:
         i = harness_err[0]
         rep.violation('tie broken: the real schema classes no longer match what the case lines / '
@@ -1231,7 +1301,7 @@ def run(tier):
         'out_of_model_cases_monitors_only': modes.get('X', 0),
         'stub_installer': d['stubs'],
         'schema_py_sha256': d['schema_py_sha'],
-        'layer2_ddl_histories': 'not covered (needs the EdgeQL parser / std-schema substrate)',
+        'layer2_ddl': ddl_stats(ddl_hist, ddl_res),
         'trusted_base': [
             'Coq 8.16.1 kernel (coqc; coqchk in the thorough tier); vm_compute only in cases.v evaluation',
             'extraction: ExtrOcamlBasic only, N/positive/nat kept inductive; OCaml 4.13.1; ocaml/conv.ml + c04_main.ml '
@@ -1247,7 +1317,8 @@ def run(tier):
             'out of the model: handles whose class differs from the stored class, wrong-length data tuples, '
             'non-name values in the name field (monitors only / not generated)',
             'C04_cmd_* theorems are about the model\'s guarded command layer only; it is not tied to '
-            'edb/schema/delta.py (Layer 2 not covered)',
+            'edb/schema/delta.py; the real DDL commands are covered by the layer-2 monitors only',
+            'runtime substrate harness/rt (EdgeQL parser substitute, std schema) for the layer-2 DDL runs',
         ],
     })
     rep.assumptions = [
@@ -1262,6 +1333,15 @@ def run(tier):
 def replay(path):
     j = json.load(open(path))
     r = j['replay']
+    if 'ddl_history' in r:
+        h = r['ddl_history']
+        res = run_ddl_impl([h], nproc=1)[0]
+        st = res.split(' !')[0].split('#')[0].split('|')
+        print('DDL history through the real delta commands (no model: monitors only):')
+        for c, x in zip(h, st):
+            print(f'   {x:32s} {c}')
+        print('monitors failed:', mon_tags(res) or 'none')
+        return 0
     line = r.get('case') or r.get('original_case')
     mode = r.get('mode') or line[0]
     exe, _ = lib.build_model('c04', 'ExtractC04.v', 'c04_main.ml', 'C04_ext')
